@@ -93,9 +93,13 @@ func (r *runner) deliver(msg sdk.Msg, expect int, note string) chain.StepResult 
 	return res
 }
 
-func (r *runner) ok(msg sdk.Msg, note string) chain.StepResult     { return r.deliver(msg, expOK, note) }
-func (r *runner) fail(msg sdk.Msg, note string) chain.StepResult   { return r.deliver(msg, expFail, note) }
-func (r *runner) panics(msg sdk.Msg, note string) chain.StepResult { return r.deliver(msg, expPanic, note) }
+func (r *runner) ok(msg sdk.Msg, note string) chain.StepResult { return r.deliver(msg, expOK, note) }
+func (r *runner) fail(msg sdk.Msg, note string) chain.StepResult {
+	return r.deliver(msg, expFail, note)
+}
+func (r *runner) panics(msg sdk.Msg, note string) chain.StepResult {
+	return r.deliver(msg, expPanic, note)
+}
 
 func (r *runner) begin(t time.Time) {
 	res := r.rec.Begin(0, t)
@@ -108,6 +112,13 @@ func (r *runner) begin(t time.Time) {
 }
 
 func (r *runner) commit() {
+	// cross-check the single-scan Snapshot against the per-table ORM List implementation
+	if !r.rec.App.RawScanActive() {
+		r.problem("Snapshot fast path switched itself off")
+	}
+	if fast, slow := r.rec.App.Snapshot(), r.rec.App.SnapshotViaList(); !chain.StatesEqual(fast, slow) {
+		r.problem("Snapshot != SnapshotViaList at height %d", r.rec.App.Height())
+	}
 	h := r.rec.Commit()
 	r.hashes = append(r.hashes, hex.EncodeToString(h))
 }
@@ -373,6 +384,17 @@ func main() {
 		r.problem("State JSON round trip is lossy")
 	}
 
+	// weak hashers (only in binaries built with the /repo hook: -tags verif,verifhook)
+	if chain.WeakHasherAvailable {
+		for _, kind := range []string{chain.HasherWeak4, chain.HasherConst} {
+			for _, p := range weakHasherDemo(kind) {
+				r.problem("%s: %s", kind, p)
+			}
+		}
+	} else {
+		fmt.Println("weak hashers: not available in this build (needs the /repo hook and -tags verif,verifhook)")
+	}
+
 	if *examples {
 		dumpExamples(tr)
 	}
@@ -388,6 +410,47 @@ func main() {
 		os.Exit(1)
 	}
 	fmt.Println("chainprobe: OK")
+}
+
+// weakHasherDemo anchors 12 distinct IRIs on a chain whose data server uses a weak ID hasher and
+// checks that collision handling keeps IDs unique and lookups correct.
+func weakHasherDemo(kind string) (problems []string) {
+	rec := chain.NewRecorder("weak-"+kind, 2, chain.Options{GenesisTime: t0, HasherKind: kind})
+	a := rec.App
+	rec.Begin(0, t0.Add(6*time.Second))
+	const n = 12
+	iris := map[string]bool{}
+	for i := 0; i < n; i++ {
+		ch := chain.RawHash(hash32(fmt.Sprintf("weak-%02d", i)), "txt")
+		res := rec.Deliver(a.MsgAnchor(i%3, ch))
+		if !res.OK {
+			problems = append(problems, fmt.Sprintf("anchor %d failed: %s %s", i, res.Verdict(), res.Log))
+			continue
+		}
+		var resp data.QueryAnchorByHashResponse
+		if err := a.Query("/regen.data.v2.Query/AnchorByHash", &data.QueryAnchorByHashRequest{ContentHash: ch}, &resp); err != nil || resp.Anchor == nil {
+			problems = append(problems, fmt.Sprintf("anchor %d not found by hash: %v", i, err))
+		} else {
+			iris[resp.Anchor.Iri] = true
+		}
+	}
+	rec.Commit()
+	st := a.Snapshot()
+	ids := map[string]bool{}
+	lens := map[int]int{}
+	for _, row := range st.Tables["DataID"] {
+		hx := row["id"].(map[string]interface{})["hex"].(string)
+		ids[hx] = true
+		lens[len(hx)/2]++
+	}
+	if len(st.Tables["DataID"]) != n || len(ids) != n || len(iris) != n || len(st.Tables["DataAnchor"]) != n {
+		problems = append(problems, fmt.Sprintf("expected %d distinct ids/iris, got rows=%d ids=%d iris=%d anchors=%d", n, len(st.Tables["DataID"]), len(ids), len(iris), len(st.Tables["DataAnchor"])))
+	}
+	if rt := rec.GenesisRoundTrip(); !rt.OK() {
+		problems = append(problems, fmt.Sprintf("genesis round trip: %+v", rt))
+	}
+	fmt.Printf("weak hasher %-6s: %d anchors, %d distinct ids, id length histogram %v\n", kind, n, len(ids), lens)
+	return problems
 }
 
 func shorten(hs []string) []string {
